@@ -21,7 +21,7 @@ pub static DEF: PropDef = PropDef {
     level: "exploration",
     engine: "ingest",
     rule: "one run = a real Ingester (WAL on or off, object-store or in-memory catalog, flush_row_count 2..50, flush_interval 0.2..5 s, sometimes a tiny max_buffer_size) with 2..4 concurrent writer tasks issuing 3..8 writes each of 1..50-row batches over 4 schema variants (both timestamp types, nullable label, i64/u64/f64 extremes incl. NaN/-0/inf/subnormal, near-extreme timestamps) plus the flush timer and two subscribers; no faults; every object-store request and the post-WAL-append pause point is a seeded scheduling point; distinct = distinct grant sequence; non-trivial = completed AND writers/flushes interleaved",
-    quick_runs: 3000,
+    quick_runs: 4000,
     thorough_runs: 60_000,
     run_cap_ms: 30_000,
     scen,
